@@ -27,25 +27,25 @@ import (
 // PROCESS (references are computed by one subprocess per operation).
 
 var c19Paths = []string{
-	`$.a`,                      // plain
-	`$.*.f()`,                  // filter function
-	`$.*.g()`,                  // aggregate
-	`$[?(@.f() == 2)]`,         // function inside a filter
-	`$[?(@.a.g().f() > 1)].a`,  // both kinds inside a filter
-	`$[99999999999999999999]`,  // bad integer
-	`$[?(@.a == 1e)]`,          // bad float
-	`$[?(@.a =~ /(/)]`,         // bad regex
-	"$['a\x01']",               // bad string (raw control character)
-	`$.*.f().zz()`,             // unknown function after a known one
-	`$[(1+1)]`,                 // script
-	`$[?(@.* == 1)]`,           // value-group comparison
-	`$[?(@.a == @.b)]`,         // two current nodes
-	`$.a.b[0]]`,                // trailing garbage
-	`$[?($.a == 1 && @.b)]`,    // nested parameters (action stack save/load)
-	`[?(@.a)].a`,               // leading $ omitted, filter first (nothing to save on the action stack)
-	`a.b`,                      // leading $ omitted, bare name
+	`$.a`,                                  // plain
+	`$.*.f()`,                              // filter function
+	`$.*.g()`,                              // aggregate
+	`$[?(@.f() == 2)]`,                     // function inside a filter
+	`$[?(@.a.g().f() > 1)].a`,              // both kinds inside a filter
+	`$[99999999999999999999]`,              // bad integer
+	`$[?(@.a == 1e)]`,                      // bad float
+	`$[?(@.a =~ /(/)]`,                     // bad regex
+	"$['a\x01']",                           // bad string (raw control character)
+	`$.*.f().zz()`,                         // unknown function after a known one
+	`$[(1+1)]`,                             // script
+	`$[?(@.* == 1)]`,                       // value-group comparison
+	`$[?(@.a == @.b)]`,                     // two current nodes
+	`$.a.b[0]]`,                            // trailing garbage
+	`$[?($.a == 1 && @.b)]`,                // nested parameters (action stack save/load)
+	`[?(@.a)].a`,                           // leading $ omitted, filter first (nothing to save on the action stack)
+	`a.b`,                                  // leading $ omitted, bare name
 	`$.b[?(@[99999999999999999999] == 1)]`, // failure inside a filter parameter with an outer path
-	`$.b[?(@.a.zz() == 1)]`,    // unknown function inside a filter parameter with an outer path
+	`$.b[?(@.a.zz() == 1)]`,                // unknown function inside a filter parameter with an outer path
 }
 
 // config kinds: 0 none, 1 {f}, 2 {g}, 3 {f' = same name, other behaviour}, 4 accessor only,
@@ -58,7 +58,7 @@ func c19F(v interface{}) (interface{}, error) {
 	}
 	return nil, fmt.Errorf("not a number")
 }
-func c19F2(v interface{}) (interface{}, error) { return "other", nil }
+func c19F2(v interface{}) (interface{}, error)   { return "other", nil }
 func c19G(vs []interface{}) (interface{}, error) { return float64(len(vs)), nil }
 
 func c19Config(kind int, shared *jsonpath.Config) []jsonpath.Config {
